@@ -64,7 +64,7 @@ CmpCv(op, cv, c0, flipped) ==
       less == IF cv.neg /\ cv.q.n # 0 THEN (IF c.n >= 0 THEN TRUE ELSE NumLess(csq, cv.q))      \* -sqrt(q) < c
               ELSE (IF c.n < 0 THEN FALSE ELSE NumLess(cv.q, csq))                                \*  sqrt(q) < c
       tie == (IF cv.neg /\ cv.q.n # 0 THEN c.n < 0 ELSE c.n >= 0) /\ NumEq(cv.q, csq)
-  IN IF o \notin {"lt", "le", "gt", "ge"} THEN Oou
+  IN IF o \notin {"lt", "le", "gt", "ge"} \/ IsBad(cv.q) \/ IsBad(csq) THEN Oou      \* (squares beyond 32 bits: outside the model)
      ELSE IF tie THEN (IF cv.q.n = 0 THEN B(o \in {"le", "ge"}) ELSE Oou)      \* cv = 0 exactly is exact in floating point too
      ELSE B(IF o \in {"lt", "le"} THEN less ELSE ~less)
 
